@@ -95,3 +95,11 @@ CORPUS += [
       "        if not self._session and not force:\n            return\n\n        # Get a login ID if we don't have one\n        if self._login_id is None:\n            self._login_id = await self._get_login_id()\n\n        # Login and store the session"),
     M("device-authenticate-not-awaited", D, "                await dev.authenticate(token, key)\n                return True", "                dev.authenticate(token, key)\n                return True"),
 ]
+# round 11: the cached cloud client is the one of this run's region and account
+CORPUS += [
+    M("cloud-kept-unless-credentials-change", "msmart/discover.py", "        # Always use a new cloud connection\n        cls._cloud = None\n",
+      "        if (account, password) != (cls._account, cls._password):\n            cls._cloud = None\n"),
+    M("cloud-never-reset", "msmart/discover.py", "        # Always use a new cloud connection\n        cls._cloud = None\n", ""),
+    M("n-cloud-kept-for-same-region-and-account", "msmart/discover.py", "        # Always use a new cloud connection\n        cls._cloud = None\n",
+      "        if (region, account, password) != (cls._region, cls._account, cls._password):\n            cls._cloud = None\n", "S"),
+]
